@@ -10,7 +10,12 @@ verdict "need more input" (`PR.err true`) and for a number that reaches the end 
 `Def R := R ≠ err true`; `DefN (ok _ r) := r ≠ []`, `DefN (err e) := e = false` (number-like parsers);
 `DefV (ok k r) := r ≠ [] ∨ k.isNum = false`, `DefV (err e) := e = false` (values).
 
-## First stage: same flags, same fuel (no soundness or fuel hypotheses)
+Every statement about `parseValue` / `parseArray` / `arrayLoop` / `parseObject` / `objectLoop` is for an arbitrary
+nesting depth `dp` (the window theorems instantiate `dp = 0`, as `readValue` does). The refusal of an array or object
+beyond `maxNestingDepth` is `err false`, decided by `dp` alone (after the `len(b) < 2` check, which can only turn
+`err true` into something else): it is a definitive syntax error, stable like the others.
+
+## First stage: same flags, same depth, same fuel (no soundness or fuel hypotheses)
 
 * `skipDigits_append`, `skipSpacesN_append`, `skipSpaces_append`: `skip b ≠ [] → skip (b ++ x) = skip b ++ x`.
 * `parseLit_stable : Def (parseLit b l k) → parseLit (b ++ x) l k = ext x (parseLit b l k)`.
@@ -21,20 +26,20 @@ verdict "need more input" (`PR.err true`) and for a number that reaches the end 
 * `stringLoop_stable`, `parseString_stable fl : Def (parseString fl b) → parseString fl (b ++ x) = ext x (parseString fl b)`.
 * `all_stable`: the five statements `SV`/`SA`/`SAL`/`SO`/`SOL` for `parseValue` (under `DefV`) and
   `parseArray`/`arrayLoop`/`parseObject`/`objectLoop` (under `Def`), by one induction on the fuel.
-* **`ok_stable`**: `parseValue fl f b = ok k r → (r ≠ [] ∨ k.isNum = false) → parseValue fl f (b ++ x) = ok k (r ++ x)`.
-* **`err_stable`**: `parseValue fl f b = err false → parseValue fl f (b ++ x) = err false`.
+* **`ok_stable`**: `parseValue fl dp f b = ok k r → (r ≠ [] ∨ k.isNum = false) → parseValue fl dp f (b ++ x) = ok k (r ++ x)`.
+* **`err_stable`**: `parseValue fl dp f b = err false → parseValue fl dp f (b ++ x) = err false`.
 
 ## Second stage: flags and fuel recomputed
 
 * `all_suffix` / `parseValue_suffix`: the remainder of an `ok` result is a suffix of the input (all five functions,
-  any flags, any fuel); `parseString_suffix`, `parseNumber_suffix`, `parseLit_suffix`.
+  any flags, any depth, any fuel); `parseString_suffix`, `parseNumber_suffix`, `parseLit_suffix`.
 * `all_mono` / `parseValue_fuel_succ` / `parseValue_fuel_mono` (and `parseArray_`/`arrayLoop_`/`parseObject_`/
   `objectLoop_fuel_mono`): a result other than `err true` is kept with more fuel.
-* `parseString_flags`, `all_flags` / `parseValue_flags : QSound fl b → parseValue fl f b = parseValue {} f b`:
+* `parseString_flags`, `all_flags` / `parseValue_flags : QSound fl b → parseValue fl dp f b = parseValue {} dp f b`:
   flags that are sound before every quotation mark are irrelevant.
 * **`ok_stable'`**, **`err_stable'`**: as above with `QSound fl b`, `QSound fl' (b ++ x)`, `f ≤ f'` and
-  `parseValue fl' f' (b ++ x)` in the conclusion.
-* **`window_ok_stable`**, **`window_err_stable`**: the same with `internalParseFlags` and `fuelFor` of the respective
+  `parseValue fl' dp f' (b ++ x)` in the conclusion.
+* **`window_ok_stable`**, **`window_err_stable`**: the same at depth 0 with `internalParseFlags` and `fuelFor` of the respective
   windows, for a window that does not start with white space (`skipSpaces b = b`), exactly as `readValue` computes them.
 
 Remarks on the model, found on the way (none contradicts the statements above, all concern `err true`, which is not
@@ -536,20 +541,20 @@ theorem DefV.def {R : PR} (h : DefV R) : Def R := by
   | ok k r => intro e; cases e
   | err e => intro e'; cases e'; cases h
 
-theorem parseValue_zero (fl : PFlags) (b : Bytes) : parseValue fl 0 b = .err true := by simp [parseValue]
-theorem parseArray_zero (fl : PFlags) (b : Bytes) : parseArray fl 0 b = .err true := by simp [parseArray]
-theorem parseObject_zero (fl : PFlags) (b : Bytes) : parseObject fl 0 b = .err true := by simp [parseObject]
-theorem arrayLoop_zero (fl : PFlags) (b : Bytes) (i : Nat) : arrayLoop fl 0 b i = .err true := by simp [arrayLoop]
-theorem objectLoop_zero (fl : PFlags) (b : Bytes) (i : Nat) : objectLoop fl 0 b i = .err true := by simp [objectLoop]
-theorem parseArray_nil (fl : PFlags) (f : Nat) : parseArray fl f [] = .err true := by cases f <;> simp [parseArray]
-theorem parseObject_nil (fl : PFlags) (f : Nat) : parseObject fl f [] = .err true := by cases f <;> simp [parseObject]
-theorem arrayLoop_nil (fl : PFlags) (f i : Nat) : arrayLoop fl f [] i = .err true := by
+theorem parseValue_zero (fl : PFlags) (dp : Nat) (b : Bytes) : parseValue fl dp 0 b = .err true := by simp [parseValue]
+theorem parseArray_zero (fl : PFlags) (dp : Nat) (b : Bytes) : parseArray fl dp 0 b = .err true := by simp [parseArray]
+theorem parseObject_zero (fl : PFlags) (dp : Nat) (b : Bytes) : parseObject fl dp 0 b = .err true := by simp [parseObject]
+theorem arrayLoop_zero (fl : PFlags) (dp : Nat) (b : Bytes) (i : Nat) : arrayLoop fl dp 0 b i = .err true := by simp [arrayLoop]
+theorem objectLoop_zero (fl : PFlags) (dp : Nat) (b : Bytes) (i : Nat) : objectLoop fl dp 0 b i = .err true := by simp [objectLoop]
+theorem parseArray_nil (fl : PFlags) (dp : Nat) (f : Nat) : parseArray fl dp f [] = .err true := by cases f <;> simp [parseArray]
+theorem parseObject_nil (fl : PFlags) (dp : Nat) (f : Nat) : parseObject fl dp f [] = .err true := by cases f <;> simp [parseObject]
+theorem arrayLoop_nil (fl : PFlags) (dp : Nat) (f i : Nat) : arrayLoop fl dp f [] i = .err true := by
   cases f
-  · exact arrayLoop_zero _ _ _
+  · exact arrayLoop_zero _ _ _ _
   · rw [arrayLoop_succ]; rfl
-theorem objectLoop_nil (fl : PFlags) (f i : Nat) : objectLoop fl f [] i = .err true := by
+theorem objectLoop_nil (fl : PFlags) (dp : Nat) (f i : Nat) : objectLoop fl dp f [] i = .err true := by
   cases f
-  · exact objectLoop_zero _ _ _
+  · exact objectLoop_zero _ _ _ _
   · rw [objectLoop_succ]; rfl
 
 theorem sepK_stable (close c : UInt8) (rest : Bytes) (i : Nat) (x : Bytes) (M : Bytes → PR)
@@ -577,28 +582,28 @@ theorem sepK_stable (close c : UInt8) (rest : Bytes) (i : Nat) (x : Bytes) (M : 
     · simp only [if_true]; rfl
 
 def SV (fl : PFlags) (f : Nat) : Prop :=
-  ∀ b x, DefV (parseValue fl f b) → parseValue fl f (b ++ x) = ext x (parseValue fl f b)
+  ∀ dp b x, DefV (parseValue fl dp f b) → parseValue fl dp f (b ++ x) = ext x (parseValue fl dp f b)
 def SA (fl : PFlags) (f : Nat) : Prop :=
-  ∀ b x, Def (parseArray fl f b) → parseArray fl f (b ++ x) = ext x (parseArray fl f b)
+  ∀ dp b x, Def (parseArray fl dp f b) → parseArray fl dp f (b ++ x) = ext x (parseArray fl dp f b)
 def SAL (fl : PFlags) (f : Nat) : Prop :=
-  ∀ b i x, Def (arrayLoop fl f b i) → arrayLoop fl f (b ++ x) i = ext x (arrayLoop fl f b i)
+  ∀ dp b i x, Def (arrayLoop fl dp f b i) → arrayLoop fl dp f (b ++ x) i = ext x (arrayLoop fl dp f b i)
 def SO (fl : PFlags) (f : Nat) : Prop :=
-  ∀ b x, Def (parseObject fl f b) → parseObject fl f (b ++ x) = ext x (parseObject fl f b)
+  ∀ dp b x, Def (parseObject fl dp f b) → parseObject fl dp f (b ++ x) = ext x (parseObject fl dp f b)
 def SOL (fl : PFlags) (f : Nat) : Prop :=
-  ∀ b i x, Def (objectLoop fl f b i) → objectLoop fl f (b ++ x) i = ext x (objectLoop fl f b i)
+  ∀ dp b i x, Def (objectLoop fl dp f b i) → objectLoop fl dp f (b ++ x) i = ext x (objectLoop fl dp f b i)
 
 theorem sv_step {fl : PFlags} {g : Nat} (hA : SA fl g) (hO : SO fl g) : SV fl (g + 1) := by
-  intro b x h
+  intro dp b x h
   cases b with
   | nil => rw [parseValue_nil] at h; cases h
   | cons c r =>
     rw [parseValue_succ_cons] at h
     rw [List.cons_append, parseValue_succ_cons, parseValue_succ_cons]
     split
-    · rename_i hc; simp only [hc, if_true] at h; exact hO (c :: r) x h.def
+    · rename_i hc; simp only [hc, if_true] at h; exact hO dp (c :: r) x h.def
     rename_i hc; simp only [hc] at h
     split
-    · rename_i hc; simp only [hc, if_true] at h; exact hA (c :: r) x h.def
+    · rename_i hc; simp only [hc, if_true] at h; exact hA dp (c :: r) x h.def
     rename_i hc; simp only [hc] at h
     split
     · rename_i hc; simp only [hc, if_true] at h; exact parseString_stable fl (c :: r) x h.def
@@ -625,7 +630,7 @@ theorem sv_step {fl : PFlags} {g : Nat} (hA : SA fl g) (hO : SO fl g) : SV fl (g
     · rfl
 
 theorem sa_step {fl : PFlags} {g : Nat} (hL : SAL fl g) : SA fl (g + 1) := by
-  intro b x h
+  intro dp b x h
   cases b with
   | nil => rw [parseArray_nil] at h; exact absurd rfl h
   | cons c rest =>
@@ -635,10 +640,14 @@ theorem sa_step {fl : PFlags} {g : Nat} (hL : SAL fl g) : SA fl (g + 1) := by
     · simp only [hr, if_true] at h; exact absurd rfl h
     · have hr2 : rest ++ x ≠ [] := by simp [hr]
       simp only [hr, hr2, if_false] at h ⊢
-      exact hL rest 0 x h
+      -- a refused nesting is `err false` on both sides
+      cases hn : nestOK dp
+      · rfl
+      · simp only [hn, if_true] at h ⊢
+        exact hL _ rest 0 x h
 
 theorem so_step {fl : PFlags} {g : Nat} (hL : SOL fl g) : SO fl (g + 1) := by
-  intro b x h
+  intro dp b x h
   cases b with
   | nil => rw [parseObject_nil] at h; exact absurd rfl h
   | cons c rest =>
@@ -648,10 +657,14 @@ theorem so_step {fl : PFlags} {g : Nat} (hL : SOL fl g) : SO fl (g + 1) := by
     · simp only [hr, if_true] at h; exact absurd rfl h
     · have hr2 : rest ++ x ≠ [] := by simp [hr]
       simp only [hr, hr2, if_false] at h ⊢
-      exact hL rest 0 x h
+      -- a refused nesting is `err false` on both sides
+      cases hn : nestOK dp
+      · rfl
+      · simp only [hn, if_true] at h ⊢
+        exact hL _ rest 0 x h
 
 theorem sal_step {fl : PFlags} {g : Nat} (hV : SV fl g) (hL : SAL fl g) : SAL fl (g + 1) := by
-  intro b i x h
+  intro dp b i x h
   rw [arrayLoop_succ] at h
   rw [arrayLoop_succ, arrayLoop_succ]
   cases hs : skipSpaces b with
@@ -665,20 +678,20 @@ theorem sal_step {fl : PFlags} {g : Nat} (hV : SV fl g) (hL : SAL fl g) : SAL fl
     · rename_i hc; simp only [hc] at h
       apply sepK_stable _ _ _ _ _ _ h
       intro b3 _ hd
-      cases hp : parseValue fl g b3 with
+      cases hp : parseValue fl dp g b3 with
       | err e =>
         rw [hp] at hd
         have := Def_err hd; subst this
-        rw [hV b3 x (by rw [hp]; rfl), hp]; rfl
+        rw [hV dp b3 x (by rw [hp]; rfl), hp]; rfl
       | ok k r =>
         rw [hp] at hd
         simp only at hd
-        have hr : r ≠ [] := by intro e; subst e; exact hd (arrayLoop_nil _ _ _)
-        rw [hV b3 x (by rw [hp]; exact Or.inl hr), hp]
-        exact hL r (i + 1) x hd
+        have hr : r ≠ [] := by intro e; subst e; exact hd (arrayLoop_nil _ _ _ _)
+        rw [hV dp b3 x (by rw [hp]; exact Or.inl hr), hp]
+        exact hL dp r (i + 1) x hd
 
 theorem sol_step {fl : PFlags} {g : Nat} (hV : SV fl g) (hL : SOL fl g) : SOL fl (g + 1) := by
-  intro b i x h
+  intro dp b i x h
   rw [objectLoop_succ] at h
   rw [objectLoop_succ, objectLoop_succ]
   cases hs : skipSpaces b with
@@ -710,49 +723,49 @@ theorem sol_step {fl : PFlags} {g : Nat} (hV : SV fl g) (hL : SOL fl g) : SOL fl
           split
           · rfl
           · rename_i hy; simp only [hy] at hd
-            cases hp2 : parseValue fl g (skipSpaces r2) with
+            cases hp2 : parseValue fl dp g (skipSpaces r2) with
             | err e =>
               rw [hp2] at hd
               have := Def_err hd; subst this
               have hne : skipSpaces r2 ≠ [] := by
                 intro e; rw [e, parseValue_nil] at hp2; cases hp2
-              rw [skipSpaces_append x hne, hV _ x (by rw [hp2]; rfl), hp2]; rfl
+              rw [skipSpaces_append x hne, hV dp _ x (by rw [hp2]; rfl), hp2]; rfl
             | ok k2 r3 =>
               rw [hp2] at hd
               simp only at hd
               have hne : skipSpaces r2 ≠ [] := by
                 intro e; rw [e, parseValue_nil] at hp2; cases hp2
-              have hr : r3 ≠ [] := by intro e; subst e; exact hd (objectLoop_nil _ _ _)
-              rw [skipSpaces_append x hne, hV _ x (by rw [hp2]; exact Or.inl hr), hp2]
-              exact hL r3 (i + 1) x hd
+              have hr : r3 ≠ [] := by intro e; subst e; exact hd (objectLoop_nil _ _ _ _)
+              rw [skipSpaces_append x hne, hV dp _ x (by rw [hp2]; exact Or.inl hr), hp2]
+              exact hL dp r3 (i + 1) x hd
 
 theorem all_stable (fl : PFlags) (f : Nat) : SV fl f ∧ SA fl f ∧ SAL fl f ∧ SO fl f ∧ SOL fl f := by
   induction f with
   | zero =>
     refine ⟨?_, ?_, ?_, ?_, ?_⟩
-    · intro b x h; rw [parseValue_zero] at h; cases h
-    · intro b x h; rw [parseArray_zero] at h; exact absurd rfl h
-    · intro b i x h; rw [arrayLoop_zero] at h; exact absurd rfl h
-    · intro b x h; rw [parseObject_zero] at h; exact absurd rfl h
-    · intro b i x h; rw [objectLoop_zero] at h; exact absurd rfl h
+    · intro dp b x h; rw [parseValue_zero] at h; cases h
+    · intro dp b x h; rw [parseArray_zero] at h; exact absurd rfl h
+    · intro dp b i x h; rw [arrayLoop_zero] at h; exact absurd rfl h
+    · intro dp b x h; rw [parseObject_zero] at h; exact absurd rfl h
+    · intro dp b i x h; rw [objectLoop_zero] at h; exact absurd rfl h
   | succ g ih =>
     obtain ⟨hV, hA, hAL, hO, hOL⟩ := ih
     exact ⟨sv_step hA hO, sa_step hAL, sal_step hV hAL, so_step hOL, sol_step hV hOL⟩
 
-theorem parseValue_stable (fl : PFlags) (f : Nat) (b x : Bytes) (h : DefV (parseValue fl f b)) :
-    parseValue fl f (b ++ x) = ext x (parseValue fl f b) := (all_stable fl f).1 b x h
+theorem parseValue_stable (fl : PFlags) (dp f : Nat) (b x : Bytes) (h : DefV (parseValue fl dp f b)) :
+    parseValue fl dp f (b ++ x) = ext x (parseValue fl dp f b) := (all_stable fl f).1 dp b x h
 
 /-- a successful parse whose value is self-delimited (not a number) or is followed by at least one byte is not changed
 by appending more input -/
-theorem ok_stable (fl : PFlags) (f : Nat) (b x r : Bytes) (k : Kind)
-    (h : parseValue fl f b = .ok k r) (hd : r ≠ [] ∨ k.isNum = false) :
-    parseValue fl f (b ++ x) = .ok k (r ++ x) := by
-  rw [parseValue_stable fl f b x (by rw [h]; exact hd), h]; rfl
+theorem ok_stable (fl : PFlags) (dp f : Nat) (b x r : Bytes) (k : Kind)
+    (h : parseValue fl dp f b = .ok k r) (hd : r ≠ [] ∨ k.isNum = false) :
+    parseValue fl dp f (b ++ x) = .ok k (r ++ x) := by
+  rw [parseValue_stable fl dp f b x (by rw [h]; exact hd), h]; rfl
 
 /-- a definitive syntax error is not changed by appending more input -/
-theorem err_stable (fl : PFlags) (f : Nat) (b x : Bytes)
-    (h : parseValue fl f b = .err false) : parseValue fl f (b ++ x) = .err false := by
-  rw [parseValue_stable fl f b x (by rw [h]; rfl), h]; rfl
+theorem err_stable (fl : PFlags) (dp f : Nat) (b x : Bytes)
+    (h : parseValue fl dp f b = .err false) : parseValue fl dp f (b ++ x) = .err false := by
+  rw [parseValue_stable fl dp f b x (by rw [h]; rfl), h]; rfl
 
 /-! ### second stage: the separator step, generically -/
 
@@ -824,22 +837,22 @@ theorem parseString_suffix {fl : PFlags} {b r : Bytes} {k : Kind} (h : parseStri
         · exact (stringLoop_suffix h).trans (List.suffix_cons _ _)
     · rw [parseString_not_quote fl q c t hq] at h; cases h
 
-def XV (fl : PFlags) (f : Nat) : Prop := ∀ b k r, parseValue fl f b = .ok k r → r <:+ b
-def XA (fl : PFlags) (f : Nat) : Prop := ∀ b k r, parseArray fl f b = .ok k r → r <:+ b
-def XAL (fl : PFlags) (f : Nat) : Prop := ∀ b i k r, arrayLoop fl f b i = .ok k r → r <:+ b
-def XO (fl : PFlags) (f : Nat) : Prop := ∀ b k r, parseObject fl f b = .ok k r → r <:+ b
-def XOL (fl : PFlags) (f : Nat) : Prop := ∀ b i k r, objectLoop fl f b i = .ok k r → r <:+ b
+def XV (fl : PFlags) (f : Nat) : Prop := ∀ dp b k r, parseValue fl dp f b = .ok k r → r <:+ b
+def XA (fl : PFlags) (f : Nat) : Prop := ∀ dp b k r, parseArray fl dp f b = .ok k r → r <:+ b
+def XAL (fl : PFlags) (f : Nat) : Prop := ∀ dp b i k r, arrayLoop fl dp f b i = .ok k r → r <:+ b
+def XO (fl : PFlags) (f : Nat) : Prop := ∀ dp b k r, parseObject fl dp f b = .ok k r → r <:+ b
+def XOL (fl : PFlags) (f : Nat) : Prop := ∀ dp b i k r, objectLoop fl dp f b i = .ok k r → r <:+ b
 
 theorem xv_step {fl : PFlags} {g : Nat} (hA : XA fl g) (hO : XO fl g) : XV fl (g + 1) := by
-  intro b k r h
+  intro dp b k r h
   cases b with
   | nil => rw [parseValue_nil] at h; cases h
   | cons c t =>
     rw [parseValue_succ_cons] at h
     split at h
-    · exact hO _ _ _ h
+    · exact hO dp _ _ _ h
     split at h
-    · exact hA _ _ _ h
+    · exact hA dp _ _ _ h
     split at h
     · exact parseString_suffix h
     split at h
@@ -853,27 +866,31 @@ theorem xv_step {fl : PFlags} {g : Nat} (hA : XA fl g) (hO : XO fl g) : XV fl (g
     · cases h
 
 theorem xa_step {fl : PFlags} {g : Nat} (hL : XAL fl g) : XA fl (g + 1) := by
-  intro b k r h
+  intro dp b k r h
   cases b with
   | nil => rw [parseArray_nil] at h; cases h
   | cons c rest =>
     rw [parseArray_succ_cons] at h
     split at h
     · cases h
-    · exact (hL _ _ _ _ h).trans (List.suffix_cons _ _)
+    · split at h
+      · exact (hL _ _ _ _ _ h).trans (List.suffix_cons _ _)
+      · cases h
 
 theorem xo_step {fl : PFlags} {g : Nat} (hL : XOL fl g) : XO fl (g + 1) := by
-  intro b k r h
+  intro dp b k r h
   cases b with
   | nil => rw [parseObject_nil] at h; cases h
   | cons c rest =>
     rw [parseObject_succ_cons] at h
     split at h
     · cases h
-    · exact (hL _ _ _ _ h).trans (List.suffix_cons _ _)
+    · split at h
+      · exact (hL _ _ _ _ _ h).trans (List.suffix_cons _ _)
+      · cases h
 
 theorem xal_step {fl : PFlags} {g : Nat} (hV : XV fl g) (hL : XAL fl g) : XAL fl (g + 1) := by
-  intro b i k r h
+  intro dp b i k r h
   rw [arrayLoop_succ] at h
   have hsb := skipSpaces_suffix b
   cases hs : skipSpaces b with
@@ -884,14 +901,14 @@ theorem xal_step {fl : PFlags} {g : Nat} (hV : XV fl g) (hL : XAL fl g) : XAL fl
     split at h
     · cases h; exact (List.suffix_cons _ _).trans hsb
     · obtain ⟨b3, hb3, hm⟩ := sepK_ok h
-      cases hp : parseValue fl g b3 with
+      cases hp : parseValue fl dp g b3 with
       | err e => rw [hp] at hm; cases hm
       | ok k2 r2 =>
         rw [hp] at hm
-        exact (((hL _ _ _ _ hm).trans (hV _ _ _ hp)).trans hb3).trans hsb
+        exact (((hL dp _ _ _ _ hm).trans (hV dp _ _ _ hp)).trans hb3).trans hsb
 
 theorem xol_step {fl : PFlags} {g : Nat} (hV : XV fl g) (hL : XOL fl g) : XOL fl (g + 1) := by
-  intro b i k r h
+  intro dp b i k r h
   rw [objectLoop_succ] at h
   have hsb := skipSpaces_suffix b
   cases hs : skipSpaces b with
@@ -915,60 +932,60 @@ theorem xol_step {fl : PFlags} {g : Nat} (hV : XV fl g) (hL : XOL fl g) : XOL fl
           simp only at hm
           split at hm
           · cases hm
-          · cases hp2 : parseValue fl g (skipSpaces r3) with
+          · cases hp2 : parseValue fl dp g (skipSpaces r3) with
             | err e => rw [hp2] at hm; cases hm
             | ok k4 r4 =>
               rw [hp2] at hm
-              have := (hL _ _ _ _ hm).trans ((hV _ _ _ hp2).trans (skipSpaces_suffix r3))
+              have := (hL dp _ _ _ _ hm).trans ((hV dp _ _ _ hp2).trans (skipSpaces_suffix r3))
               exact ((((this.trans (List.suffix_cons _ _)).trans h2).trans (parseString_suffix hp)).trans hb3).trans hsb
 
 theorem all_suffix (fl : PFlags) (f : Nat) : XV fl f ∧ XA fl f ∧ XAL fl f ∧ XO fl f ∧ XOL fl f := by
   induction f with
   | zero =>
     refine ⟨?_, ?_, ?_, ?_, ?_⟩
-    · intro b k r h; rw [parseValue_zero] at h; cases h
-    · intro b k r h; rw [parseArray_zero] at h; cases h
-    · intro b i k r h; rw [arrayLoop_zero] at h; cases h
-    · intro b k r h; rw [parseObject_zero] at h; cases h
-    · intro b i k r h; rw [objectLoop_zero] at h; cases h
+    · intro dp b k r h; rw [parseValue_zero] at h; cases h
+    · intro dp b k r h; rw [parseArray_zero] at h; cases h
+    · intro dp b i k r h; rw [arrayLoop_zero] at h; cases h
+    · intro dp b k r h; rw [parseObject_zero] at h; cases h
+    · intro dp b i k r h; rw [objectLoop_zero] at h; cases h
   | succ g ih =>
     obtain ⟨hV, hA, hAL, hO, hOL⟩ := ih
     exact ⟨xv_step hA hO, xa_step hAL, xal_step hV hAL, xo_step hOL, xol_step hV hOL⟩
 
 /-- whatever `parseValue` leaves over is a suffix of its input (any flags, any fuel) -/
-theorem parseValue_suffix {fl : PFlags} {f : Nat} {b r : Bytes} {k : Kind} (h : parseValue fl f b = .ok k r) : r <:+ b :=
-  (all_suffix fl f).1 b k r h
-theorem arrayLoop_suffix {fl : PFlags} {f i : Nat} {b r : Bytes} {k : Kind} (h : arrayLoop fl f b i = .ok k r) : r <:+ b :=
-  (all_suffix fl f).2.2.1 b i k r h
-theorem objectLoop_suffix {fl : PFlags} {f i : Nat} {b r : Bytes} {k : Kind} (h : objectLoop fl f b i = .ok k r) : r <:+ b :=
-  (all_suffix fl f).2.2.2.2 b i k r h
+theorem parseValue_suffix {fl : PFlags} {dp f : Nat} {b r : Bytes} {k : Kind} (h : parseValue fl dp f b = .ok k r) : r <:+ b :=
+  (all_suffix fl f).1 dp b k r h
+theorem arrayLoop_suffix {fl : PFlags} {dp f i : Nat} {b r : Bytes} {k : Kind} (h : arrayLoop fl dp f b i = .ok k r) : r <:+ b :=
+  (all_suffix fl f).2.2.1 dp b i k r h
+theorem objectLoop_suffix {fl : PFlags} {dp f i : Nat} {b r : Bytes} {k : Kind} (h : objectLoop fl dp f b i = .ok k r) : r <:+ b :=
+  (all_suffix fl f).2.2.2.2 dp b i k r h
 
 /-! ### more fuel does not change a verdict other than `err true` -/
 
-def MV (fl : PFlags) (f : Nat) : Prop := ∀ b, Def (parseValue fl f b) → parseValue fl (f + 1) b = parseValue fl f b
-def MA (fl : PFlags) (f : Nat) : Prop := ∀ b, Def (parseArray fl f b) → parseArray fl (f + 1) b = parseArray fl f b
+def MV (fl : PFlags) (f : Nat) : Prop := ∀ dp b, Def (parseValue fl dp f b) → parseValue fl dp (f + 1) b = parseValue fl dp f b
+def MA (fl : PFlags) (f : Nat) : Prop := ∀ dp b, Def (parseArray fl dp f b) → parseArray fl dp (f + 1) b = parseArray fl dp f b
 def MAL (fl : PFlags) (f : Nat) : Prop :=
-  ∀ b i, Def (arrayLoop fl f b i) → arrayLoop fl (f + 1) b i = arrayLoop fl f b i
-def MO (fl : PFlags) (f : Nat) : Prop := ∀ b, Def (parseObject fl f b) → parseObject fl (f + 1) b = parseObject fl f b
+  ∀ dp b i, Def (arrayLoop fl dp f b i) → arrayLoop fl dp (f + 1) b i = arrayLoop fl dp f b i
+def MO (fl : PFlags) (f : Nat) : Prop := ∀ dp b, Def (parseObject fl dp f b) → parseObject fl dp (f + 1) b = parseObject fl dp f b
 def MOL (fl : PFlags) (f : Nat) : Prop :=
-  ∀ b i, Def (objectLoop fl f b i) → objectLoop fl (f + 1) b i = objectLoop fl f b i
+  ∀ dp b i, Def (objectLoop fl dp f b i) → objectLoop fl dp (f + 1) b i = objectLoop fl dp f b i
 
 theorem mv_step {fl : PFlags} {g : Nat} (hA : MA fl g) (hO : MO fl g) : MV fl (g + 1) := by
-  intro b h
+  intro dp b h
   cases b with
   | nil => rw [parseValue_nil, parseValue_nil]
   | cons c r =>
     rw [parseValue_succ_cons] at h
     rw [parseValue_succ_cons, parseValue_succ_cons]
     split
-    · rename_i hc; simp only [hc, if_true] at h; exact hO _ h
+    · rename_i hc; simp only [hc, if_true] at h; exact hO dp _ h
     rename_i hc; simp only [hc] at h
     split
-    · rename_i hc; simp only [hc, if_true] at h; exact hA _ h
+    · rename_i hc; simp only [hc, if_true] at h; exact hA dp _ h
     · rfl
 
 theorem ma_step {fl : PFlags} {g : Nat} (hL : MAL fl g) : MA fl (g + 1) := by
-  intro b h
+  intro dp b h
   cases b with
   | nil => rw [parseArray_nil, parseArray_nil]
   | cons c rest =>
@@ -976,10 +993,13 @@ theorem ma_step {fl : PFlags} {g : Nat} (hL : MAL fl g) : MA fl (g + 1) := by
     rw [parseArray_succ_cons, parseArray_succ_cons]
     split
     · rfl
-    · rename_i hr; simp only [hr, if_false] at h; exact hL _ _ h
+    · rename_i hr; simp only [hr, if_false] at h
+      split
+      · rename_i hn; simp only [hn, if_true] at h; exact hL _ _ _ h
+      · rfl
 
 theorem mo_step {fl : PFlags} {g : Nat} (hL : MOL fl g) : MO fl (g + 1) := by
-  intro b h
+  intro dp b h
   cases b with
   | nil => rw [parseObject_nil, parseObject_nil]
   | cons c rest =>
@@ -987,10 +1007,13 @@ theorem mo_step {fl : PFlags} {g : Nat} (hL : MOL fl g) : MO fl (g + 1) := by
     rw [parseObject_succ_cons, parseObject_succ_cons]
     split
     · rfl
-    · rename_i hr; simp only [hr, if_false] at h; exact hL _ _ h
+    · rename_i hr; simp only [hr, if_false] at h
+      split
+      · rename_i hn; simp only [hn, if_true] at h; exact hL _ _ _ h
+      · rfl
 
 theorem mal_step {fl : PFlags} {g : Nat} (hV : MV fl g) (hL : MAL fl g) : MAL fl (g + 1) := by
-  intro b i h
+  intro dp b i h
   rw [arrayLoop_succ] at h
   rw [arrayLoop_succ, arrayLoop_succ]
   cases hs : skipSpaces b with
@@ -1004,17 +1027,17 @@ theorem mal_step {fl : PFlags} {g : Nat} (hV : MV fl g) (hL : MAL fl g) : MAL fl
       apply sepK_congr
       intro b3 _ _ he
       rw [he] at h
-      cases hp : parseValue fl g b3 with
+      cases hp : parseValue fl dp g b3 with
       | err e =>
         rw [hp] at h
-        rw [hV b3 (by rw [hp]; exact h), hp]
+        rw [hV dp b3 (by rw [hp]; exact h), hp]
       | ok k r =>
         rw [hp] at h
-        rw [hV b3 (by rw [hp]; intro e; cases e), hp]
-        exact hL r (i + 1) h
+        rw [hV dp b3 (by rw [hp]; intro e; cases e), hp]
+        exact hL dp r (i + 1) h
 
 theorem mol_step {fl : PFlags} {g : Nat} (hV : MV fl g) (hL : MOL fl g) : MOL fl (g + 1) := by
-  intro b i h
+  intro dp b i h
   rw [objectLoop_succ] at h
   rw [objectLoop_succ, objectLoop_succ]
   cases hs : skipSpaces b with
@@ -1041,60 +1064,60 @@ theorem mol_step {fl : PFlags} {g : Nat} (hV : MV fl g) (hL : MOL fl g) : MOL fl
           split
           · rfl
           · rename_i hy; simp only [hy] at h
-            cases hp2 : parseValue fl g (skipSpaces r2) with
+            cases hp2 : parseValue fl dp g (skipSpaces r2) with
             | err e =>
               rw [hp2] at h
-              rw [hV _ (by rw [hp2]; exact h), hp2]
+              rw [hV dp _ (by rw [hp2]; exact h), hp2]
             | ok k2 r3 =>
               rw [hp2] at h
-              rw [hV _ (by rw [hp2]; intro e; cases e), hp2]
-              exact hL r3 (i + 1) h
+              rw [hV dp _ (by rw [hp2]; intro e; cases e), hp2]
+              exact hL dp r3 (i + 1) h
 
 theorem all_mono (fl : PFlags) (f : Nat) : MV fl f ∧ MA fl f ∧ MAL fl f ∧ MO fl f ∧ MOL fl f := by
   induction f with
   | zero =>
     refine ⟨?_, ?_, ?_, ?_, ?_⟩
-    · intro b h; rw [parseValue_zero] at h; exact absurd rfl h
-    · intro b h; rw [parseArray_zero] at h; exact absurd rfl h
-    · intro b i h; rw [arrayLoop_zero] at h; exact absurd rfl h
-    · intro b h; rw [parseObject_zero] at h; exact absurd rfl h
-    · intro b i h; rw [objectLoop_zero] at h; exact absurd rfl h
+    · intro dp b h; rw [parseValue_zero] at h; exact absurd rfl h
+    · intro dp b h; rw [parseArray_zero] at h; exact absurd rfl h
+    · intro dp b i h; rw [arrayLoop_zero] at h; exact absurd rfl h
+    · intro dp b h; rw [parseObject_zero] at h; exact absurd rfl h
+    · intro dp b i h; rw [objectLoop_zero] at h; exact absurd rfl h
   | succ g ih =>
     obtain ⟨hV, hA, hAL, hO, hOL⟩ := ih
     exact ⟨mv_step hA hO, ma_step hAL, mal_step hV hAL, mo_step hOL, mol_step hV hOL⟩
 
 /-- fuel monotonicity: a verdict other than "need more input" is kept with one more unit of fuel -/
-theorem parseValue_fuel_succ (fl : PFlags) (f : Nat) (b : Bytes) (R : PR)
-    (h : parseValue fl f b = R) (hd : R ≠ .err true) : parseValue fl (f + 1) b = R := by
-  subst h; exact (all_mono fl f).1 b hd
+theorem parseValue_fuel_succ (fl : PFlags) (dp f : Nat) (b : Bytes) (R : PR)
+    (h : parseValue fl dp f b = R) (hd : R ≠ .err true) : parseValue fl dp (f + 1) b = R := by
+  subst h; exact (all_mono fl f).1 dp b hd
 
 /-- … hence with any larger fuel -/
-theorem parseValue_fuel_mono (fl : PFlags) (f f' : Nat) (b : Bytes) (R : PR) (hf : f ≤ f')
-    (h : parseValue fl f b = R) (hd : R ≠ .err true) : parseValue fl f' b = R := by
+theorem parseValue_fuel_mono (fl : PFlags) (dp f f' : Nat) (b : Bytes) (R : PR) (hf : f ≤ f')
+    (h : parseValue fl dp f b = R) (hd : R ≠ .err true) : parseValue fl dp f' b = R := by
   induction hf with
   | refl => exact h
-  | step _ ih => exact parseValue_fuel_succ fl _ b R ih hd
+  | step _ ih => exact parseValue_fuel_succ fl dp _ b R ih hd
 
-theorem parseArray_fuel_mono (fl : PFlags) (f f' : Nat) (b : Bytes) (R : PR) (hf : f ≤ f')
-    (h : parseArray fl f b = R) (hd : R ≠ .err true) : parseArray fl f' b = R := by
+theorem parseArray_fuel_mono (fl : PFlags) (dp f f' : Nat) (b : Bytes) (R : PR) (hf : f ≤ f')
+    (h : parseArray fl dp f b = R) (hd : R ≠ .err true) : parseArray fl dp f' b = R := by
   induction hf with
   | refl => exact h
-  | step _ ih => rw [← ih]; exact (all_mono fl _).2.1 b (by rw [ih]; exact hd)
-theorem arrayLoop_fuel_mono (fl : PFlags) (f f' : Nat) (b : Bytes) (i : Nat) (R : PR) (hf : f ≤ f')
-    (h : arrayLoop fl f b i = R) (hd : R ≠ .err true) : arrayLoop fl f' b i = R := by
+  | step _ ih => rw [← ih]; exact (all_mono fl _).2.1 dp b (by rw [ih]; exact hd)
+theorem arrayLoop_fuel_mono (fl : PFlags) (dp f f' : Nat) (b : Bytes) (i : Nat) (R : PR) (hf : f ≤ f')
+    (h : arrayLoop fl dp f b i = R) (hd : R ≠ .err true) : arrayLoop fl dp f' b i = R := by
   induction hf with
   | refl => exact h
-  | step _ ih => rw [← ih]; exact (all_mono fl _).2.2.1 b i (by rw [ih]; exact hd)
-theorem parseObject_fuel_mono (fl : PFlags) (f f' : Nat) (b : Bytes) (R : PR) (hf : f ≤ f')
-    (h : parseObject fl f b = R) (hd : R ≠ .err true) : parseObject fl f' b = R := by
+  | step _ ih => rw [← ih]; exact (all_mono fl _).2.2.1 dp b i (by rw [ih]; exact hd)
+theorem parseObject_fuel_mono (fl : PFlags) (dp f f' : Nat) (b : Bytes) (R : PR) (hf : f ≤ f')
+    (h : parseObject fl dp f b = R) (hd : R ≠ .err true) : parseObject fl dp f' b = R := by
   induction hf with
   | refl => exact h
-  | step _ ih => rw [← ih]; exact (all_mono fl _).2.2.2.1 b (by rw [ih]; exact hd)
-theorem objectLoop_fuel_mono (fl : PFlags) (f f' : Nat) (b : Bytes) (i : Nat) (R : PR) (hf : f ≤ f')
-    (h : objectLoop fl f b i = R) (hd : R ≠ .err true) : objectLoop fl f' b i = R := by
+  | step _ ih => rw [← ih]; exact (all_mono fl _).2.2.2.1 dp b (by rw [ih]; exact hd)
+theorem objectLoop_fuel_mono (fl : PFlags) (dp f f' : Nat) (b : Bytes) (i : Nat) (R : PR) (hf : f ≤ f')
+    (h : objectLoop fl dp f b i = R) (hd : R ≠ .err true) : objectLoop fl dp f' b i = R := by
   induction hf with
   | refl => exact h
-  | step _ ih => rw [← ih]; exact (all_mono fl _).2.2.2.2 b i (by rw [ih]; exact hd)
+  | step _ ih => rw [← ih]; exact (all_mono fl _).2.2.2.2 dp b i (by rw [ih]; exact hd)
 
 /-! ### sound flags are irrelevant -/
 
@@ -1140,48 +1163,52 @@ theorem parseString_flags (fl : PFlags) (b : Bytes) (hq : QSound fl b) : parseSt
         rw [hinner, fastOk_sound hfs]
     · rw [parseString_not_quote fl q c r h22, parseString_not_quote {} q c r h22]
 
-def FV (fl : PFlags) (f : Nat) : Prop := ∀ b, QSound fl b → parseValue fl f b = parseValue {} f b
-def FA (fl : PFlags) (f : Nat) : Prop := ∀ b, QSound fl b → parseArray fl f b = parseArray {} f b
-def FAL (fl : PFlags) (f : Nat) : Prop := ∀ b i, QSound fl b → arrayLoop fl f b i = arrayLoop {} f b i
-def FO (fl : PFlags) (f : Nat) : Prop := ∀ b, QSound fl b → parseObject fl f b = parseObject {} f b
-def FOL (fl : PFlags) (f : Nat) : Prop := ∀ b i, QSound fl b → objectLoop fl f b i = objectLoop {} f b i
+def FV (fl : PFlags) (f : Nat) : Prop := ∀ dp b, QSound fl b → parseValue fl dp f b = parseValue {} dp f b
+def FA (fl : PFlags) (f : Nat) : Prop := ∀ dp b, QSound fl b → parseArray fl dp f b = parseArray {} dp f b
+def FAL (fl : PFlags) (f : Nat) : Prop := ∀ dp b i, QSound fl b → arrayLoop fl dp f b i = arrayLoop {} dp f b i
+def FO (fl : PFlags) (f : Nat) : Prop := ∀ dp b, QSound fl b → parseObject fl dp f b = parseObject {} dp f b
+def FOL (fl : PFlags) (f : Nat) : Prop := ∀ dp b i, QSound fl b → objectLoop fl dp f b i = objectLoop {} dp f b i
 
 theorem fv_step {fl : PFlags} {g : Nat} (hA : FA fl g) (hO : FO fl g) : FV fl (g + 1) := by
-  intro b hq
+  intro dp b hq
   cases b with
   | nil => rw [parseValue_nil, parseValue_nil]
   | cons c r =>
     rw [parseValue_succ_cons, parseValue_succ_cons]
     split
-    · exact hO _ hq
+    · exact hO dp _ hq
     split
-    · exact hA _ hq
+    · exact hA dp _ hq
     split
     · exact parseString_flags fl _ hq
     · rfl
 
 theorem fa_step {fl : PFlags} {g : Nat} (hL : FAL fl g) : FA fl (g + 1) := by
-  intro b hq
+  intro dp b hq
   cases b with
   | nil => rw [parseArray_nil, parseArray_nil]
   | cons c rest =>
     rw [parseArray_succ_cons, parseArray_succ_cons]
     split
     · rfl
-    · exact hL _ _ hq.tail
+    · split
+      · exact hL _ _ _ hq.tail
+      · rfl
 
 theorem fo_step {fl : PFlags} {g : Nat} (hL : FOL fl g) : FO fl (g + 1) := by
-  intro b hq
+  intro dp b hq
   cases b with
   | nil => rw [parseObject_nil, parseObject_nil]
   | cons c rest =>
     rw [parseObject_succ_cons, parseObject_succ_cons]
     split
     · rfl
-    · exact hL _ _ hq.tail
+    · split
+      · exact hL _ _ _ hq.tail
+      · rfl
 
 theorem fal_step {fl : PFlags} {g : Nat} (hV : FV fl g) (hL : FAL fl g) : FAL fl (g + 1) := by
-  intro b i hq
+  intro dp b i hq
   rw [arrayLoop_succ, arrayLoop_succ]
   have hqs : QSound fl (skipSpaces b) := hq.suffix (skipSpaces_suffix b)
   cases hs : skipSpaces b with
@@ -1194,13 +1221,13 @@ theorem fal_step {fl : PFlags} {g : Nat} (hV : FV fl g) (hL : FAL fl g) : FAL fl
     · apply sepK_congr
       intro b3 _ hb3 _
       have hq3 : QSound fl b3 := hqs.suffix hb3
-      rw [hV b3 hq3]
-      cases hp : parseValue {} g b3 with
+      rw [hV dp b3 hq3]
+      cases hp : parseValue {} dp g b3 with
       | err e => rfl
-      | ok k r => exact hL r (i + 1) (hq3.suffix (parseValue_suffix hp))
+      | ok k r => exact hL dp r (i + 1) (hq3.suffix (parseValue_suffix hp))
 
 theorem fol_step {fl : PFlags} {g : Nat} (hV : FV fl g) (hL : FOL fl g) : FOL fl (g + 1) := by
-  intro b i hq
+  intro dp b i hq
   rw [objectLoop_succ, objectLoop_succ]
   have hqs : QSound fl (skipSpaces b) := hq.suffix (skipSpaces_suffix b)
   cases hs : skipSpaces b with
@@ -1227,45 +1254,45 @@ theorem fol_step {fl : PFlags} {g : Nat} (hV : FV fl g) (hL : FOL fl g) : FOL fl
           split
           · rfl
           · have hq2 : QSound fl (skipSpaces r2) := hqr.tail.suffix (skipSpaces_suffix r2)
-            rw [hV _ hq2]
-            cases hp2 : parseValue {} g (skipSpaces r2) with
+            rw [hV dp _ hq2]
+            cases hp2 : parseValue {} dp g (skipSpaces r2) with
             | err e => rfl
-            | ok k2 r3 => exact hL r3 (i + 1) (hq2.suffix (parseValue_suffix hp2))
+            | ok k2 r3 => exact hL dp r3 (i + 1) (hq2.suffix (parseValue_suffix hp2))
 
 theorem all_flags (fl : PFlags) (f : Nat) : FV fl f ∧ FA fl f ∧ FAL fl f ∧ FO fl f ∧ FOL fl f := by
   induction f with
   | zero =>
     refine ⟨?_, ?_, ?_, ?_, ?_⟩
-    · intro b _; rw [parseValue_zero, parseValue_zero]
-    · intro b _; rw [parseArray_zero, parseArray_zero]
-    · intro b i _; rw [arrayLoop_zero, arrayLoop_zero]
-    · intro b _; rw [parseObject_zero, parseObject_zero]
-    · intro b i _; rw [objectLoop_zero, objectLoop_zero]
+    · intro dp b _; rw [parseValue_zero, parseValue_zero]
+    · intro dp b _; rw [parseArray_zero, parseArray_zero]
+    · intro dp b i _; rw [arrayLoop_zero, arrayLoop_zero]
+    · intro dp b _; rw [parseObject_zero, parseObject_zero]
+    · intro dp b i _; rw [objectLoop_zero, objectLoop_zero]
   | succ g ih =>
     obtain ⟨hV, hA, hAL, hO, hOL⟩ := ih
     exact ⟨fv_step hA hO, fa_step hAL, fal_step hV hAL, fo_step hOL, fol_step hV hOL⟩
 
 /-- flag irrelevance: with flags that are sound before every quotation mark of `b`, the parse of `b` is the parse with
 both flags off -/
-theorem parseValue_flags (fl : PFlags) (f : Nat) (b : Bytes) (hq : QSound fl b) :
-    parseValue fl f b = parseValue {} f b := (all_flags fl f).1 b hq
+theorem parseValue_flags (fl : PFlags) (dp f : Nat) (b : Bytes) (hq : QSound fl b) :
+    parseValue fl dp f b = parseValue {} dp f b := (all_flags fl f).1 dp b hq
 
 /-! ### combined: different (sound) flags, more fuel, more input -/
 
-theorem ok_stable' (fl fl' : PFlags) (f f' : Nat) (b x r : Bytes) (k : Kind)
+theorem ok_stable' (fl fl' : PFlags) (dp f f' : Nat) (b x r : Bytes) (k : Kind)
     (hq : QSound fl b) (hq' : QSound fl' (b ++ x)) (hf : f ≤ f')
-    (h : parseValue fl f b = .ok k r) (hd : r ≠ [] ∨ k.isNum = false) :
-    parseValue fl' f' (b ++ x) = .ok k (r ++ x) := by
-  rw [parseValue_flags fl f b hq] at h
-  rw [parseValue_flags fl' f' _ hq']
-  exact parseValue_fuel_mono {} f f' _ _ hf (ok_stable {} f b x r k h hd) (by intro e; cases e)
+    (h : parseValue fl dp f b = .ok k r) (hd : r ≠ [] ∨ k.isNum = false) :
+    parseValue fl' dp f' (b ++ x) = .ok k (r ++ x) := by
+  rw [parseValue_flags fl dp f b hq] at h
+  rw [parseValue_flags fl' dp f' _ hq']
+  exact parseValue_fuel_mono {} dp f f' _ _ hf (ok_stable {} dp f b x r k h hd) (by intro e; cases e)
 
-theorem err_stable' (fl fl' : PFlags) (f f' : Nat) (b x : Bytes)
+theorem err_stable' (fl fl' : PFlags) (dp f f' : Nat) (b x : Bytes)
     (hq : QSound fl b) (hq' : QSound fl' (b ++ x)) (hf : f ≤ f')
-    (h : parseValue fl f b = .err false) : parseValue fl' f' (b ++ x) = .err false := by
-  rw [parseValue_flags fl f b hq] at h
-  rw [parseValue_flags fl' f' _ hq']
-  exact parseValue_fuel_mono {} f f' _ _ hf (err_stable {} f b x h) (by intro e; cases e)
+    (h : parseValue fl dp f b = .err false) : parseValue fl' dp f' (b ++ x) = .err false := by
+  rw [parseValue_flags fl dp f b hq] at h
+  rw [parseValue_flags fl' dp f' _ hq']
+  exact parseValue_fuel_mono {} dp f f' _ _ hf (err_stable {} dp f b x h) (by intro e; cases e)
 
 theorem fuelFor_append (b x : Bytes) : fuelFor b ≤ fuelFor (b ++ x) := by
   simp only [fuelFor, List.length_append]; omega
@@ -1291,25 +1318,30 @@ theorem window_qsound {b : Bytes} (hb : skipSpaces b = b) : QSound (internalPars
 /-- **value verdicts survive a refill.** `b` is the decoder's window (`remain`, which never starts with white space),
 `x` the bytes appended by the refill. Flags and fuel are recomputed from the new window, as `readValue` does. -/
 theorem window_ok_stable (b x r : Bytes) (k : Kind) (hb : skipSpaces b = b)
-    (h : parseValue (internalParseFlags b) (fuelFor b) b = .ok k r) (hd : r ≠ [] ∨ k.isNum = false) :
-    parseValue (internalParseFlags (b ++ x)) (fuelFor (b ++ x)) (b ++ x) = .ok k (r ++ x) := by
+    (h : parseValue (internalParseFlags b) 0 (fuelFor b) b = .ok k r) (hd : r ≠ [] ∨ k.isNum = false) :
+    parseValue (internalParseFlags (b ++ x)) 0 (fuelFor (b ++ x)) (b ++ x) = .ok k (r ++ x) := by
   have hne : b ≠ [] := by intro e; subst e; rw [parseValue_nil] at h; cases h
-  exact ok_stable' _ _ _ _ b x r k (window_qsound hb) (window_qsound (skipSpaces_fix_append x hb hne))
+  exact ok_stable' _ _ _ _ _ b x r k (window_qsound hb) (window_qsound (skipSpaces_fix_append x hb hne))
     (fuelFor_append b x) h hd
 
 /-- **syntax errors survive a refill.** -/
 theorem window_err_stable (b x : Bytes) (hb : skipSpaces b = b)
-    (h : parseValue (internalParseFlags b) (fuelFor b) b = .err false) :
-    parseValue (internalParseFlags (b ++ x)) (fuelFor (b ++ x)) (b ++ x) = .err false := by
+    (h : parseValue (internalParseFlags b) 0 (fuelFor b) b = .err false) :
+    parseValue (internalParseFlags (b ++ x)) 0 (fuelFor (b ++ x)) (b ++ x) = .err false := by
   have hne : b ≠ [] := by intro e; subst e; rw [parseValue_nil] at h; cases h
-  exact err_stable' _ _ _ _ b x (window_qsound hb) (window_qsound (skipSpaces_fix_append x hb hne))
+  exact err_stable' _ _ _ _ _ b x (window_qsound hb) (window_qsound (skipSpaces_fix_append x hb hne))
     (fuelFor_append b x) h
 
 /-- the side condition of `ok_stable` cannot be dropped: a number that reaches the end of the window may continue -/
-example : parseValue {} 8 [0x31] = .ok .uint [] ∧ parseValue {} 8 ([0x31] ++ [0x32]) = .ok .uint [] := by decide
+example : parseValue {} 0 8 [0x31] = .ok .uint [] ∧ parseValue {} 0 8 ([0x31] ++ [0x32]) = .ok .uint [] := by decide +kernel
 
 /-- `err true` is not stable (that is its purpose): `[1` needs more input, `[1]` is a value, `[1x` is an error -/
-example : parseValue {} 8 [0x5b, 0x31] = .err true ∧ parseValue {} 8 ([0x5b, 0x31] ++ [0x5d]) = .ok .array [] ∧
-    parseValue {} 8 ([0x5b, 0x31] ++ [0x78]) = .err false := by decide
+example : parseValue {} 0 8 [0x5b, 0x31] = .err true ∧ parseValue {} 0 8 ([0x5b, 0x31] ++ [0x5d]) = .ok .array [] ∧
+    parseValue {} 0 8 ([0x5b, 0x31] ++ [0x78]) = .err false := by decide +kernel
+
+/-- a refused nesting (depth 10000 already entered) is a definitive syntax error, before and after a refill; one level
+less, the same window still only needs more input -/
+example : parseValue {} 10000 8 [0x5b, 0x31] = .err false ∧ parseValue {} 10000 8 ([0x5b, 0x31] ++ [0x5d]) = .err false ∧
+    parseValue {} 9999 8 [0x5b, 0x31] = .err true := by decide +kernel
 
 end Enc.Lemmas.StreamStable
